@@ -44,7 +44,7 @@ def run(ctx):
         p = progs.Prog()
         R = 16
         for rep in range(scale):
-            for lam in (128, 80):
+            for lam in ((80, 128) if rep % 2 == 0 else (128, 80)):       # both orders of the two parameter sets within one process
                 sd = ctx.seed + rep
                 progs.random_program(p, lam, sd, rnd, 8, 260)
                 progs.chain(p, lam, sd, rnd, 70)
